@@ -473,8 +473,14 @@ func runGateCase(seed int64, tier string, idx int, dIdx, vIdx, fIdx int) vp.Case
 	}
 	outcomes := map[string]bool{}
 	reachedGate := false
+	pcs := policyCtxs
+	if strings.HasPrefix(fs, "index:") && fs != "index:slow-close" {
+		// the index never arrives: nothing downstream can differ between policy contexts
+		pcs = policyCtxs[:2]
+		pres = pres[:1]
+	}
 	for _, pre := range pres {
-		for _, pc := range policyCtxs {
+		for _, pc := range pcs {
 			sb, err := newSandbox("B")
 			if err != nil {
 				res.Inconclusive = "sandbox: " + err.Error()
@@ -521,7 +527,7 @@ func runGateCase(seed int64, tier string, idx int, dIdx, vIdx, fIdx int) vp.Case
 			outcomes[cr.outcome] = true
 			res.Sets["B_outcomes"] = appendUniq(res.Sets["B_outcomes"], cr.outcome)
 			res.Violations = append(res.Violations, cr.viols...)
-			if res.Sample == nil && pc.Name == policyCtxs[4].Name {
+			if res.Sample == nil && (pc.Name == policyCtxs[4].Name || len(pcs) < 3) {
 				res.Sample = map[string]any{"monitor": "B", "cell": c, "outcome": cr.outcome, "verifier_calls": cr.calls, "declared_sha256": cut(sp.declared, 80)}
 			}
 			if len(res.Violations) > 4 {
@@ -576,7 +582,11 @@ func runProcessorCase(seed int64, tier string, idx, k int) vp.CaseResult {
 	if repo == "" {
 		repo = "/repo"
 	}
-	wasm, err := os.ReadFile(filepath.Join(repo, "pkg/plugin/processor/standalone/test/wasm_processors/chaos/processor.wasm"))
+	const fixture = "pkg/plugin/processor/standalone/test/wasm_processors/chaos/processor.wasm"
+	wasm, err := os.ReadFile(filepath.Join(repo, fixture))
+	if err != nil { // a scratch worktree lacks the (git-ignored) built fixture
+		wasm, err = os.ReadFile(filepath.Join("/repo", fixture))
+	}
 	if err != nil {
 		res.Inconclusive = "WASM fixture not readable: " + err.Error()
 		return res
